@@ -82,6 +82,7 @@ def check_setitem(program, rep):
         tr = ex.state.trace
         stores = []
         attrs = {}      # 'V.parent' -> value text list
+        attr_log = []   # (index, object text, attr, value text, event)
         calls = []
         loops = {}      # iter text -> {'items': [...], 'complete': bool}
         cur_loop = []
@@ -95,6 +96,8 @@ def check_setitem(program, rep):
                                                                  'key'):
                     attrs.setdefault((norm(tn.value), tn.attr), []).append(
                         e.sym.text)
+                    attr_log.append((i, norm(tn.value), tn.attr, e.sym.text,
+                                     e))
             if e.kind == 'call' and isinstance(e.sym.node, ast.Call):
                 calls.append((i, e))
                 cn = e.sym.node
@@ -122,7 +125,30 @@ def check_setitem(program, rep):
             rr = r('backlink', e.node)
             par = attrs.get((V, 'parent'), [])
             key = attrs.get((V, 'key'), [])
-            if M in par and k in key:
+            # a later reset of the back-links of an object read from the
+            # tables (the "replaced" child) may hit V itself: assigning the
+            # object that is already stored there is legal
+            undone = None
+            mine = [j for j, o, a, v, _ in attr_log if o == V]
+            for j, o, a, v, ev2 in attr_log:
+                if o == V or not mine or j < max(mine):
+                    continue
+                if not any(w_ in o for w_ in ('.maps', '.handles')):
+                    continue
+                distinct = any(x.kind == 'cond' and x.extra is False
+                               and x.sym.text in (f'{o} is {V}', f'{V} is {o}')
+                               for x in tr[:j])
+                if not distinct:
+                    undone = (o, a, v, ev2)
+            if undone is not None:
+                rr['bad'].append(
+                    f'after the back-links of {V} are set, {undone[0]}.'
+                    f'{undone[1]} is overwritten with {undone[2]} - and '
+                    f'{undone[0]} may be {V} itself (m[k] = m.get(k) assigns '
+                    'the object already stored there): the map stays '
+                    'reachable but its parent/key no longer name its '
+                    'container')
+            elif M in par and k in key:
                 rr['ok'] += 1
             else:
                 rr['bad'].append(
